@@ -1,7 +1,7 @@
 SPECIFICATION Spec
 CONSTANTS
   AmbiguityFirst = FALSE
-  Kinds = {"up", "auth", "authn", "authu", "idt", "idtu", "idta", "empty", "bad"}
+  Kinds = {"up", "authn", "authu", "idt", "idtu", "idta", "empty", "email", "bad"}
   MaxKeys = 3
   Export = TRUE
 INVARIANTS
